@@ -22,7 +22,7 @@ sh(f"git -C /repo worktree remove --force {wt}")
 r = sh(f"git -C /repo worktree add -q --detach {wt} HEAD")
 out = {"property": prop, "k": k}
 try:
-    env = dict(os.environ, PYTHONPATH=wt)
+    env = dict(os.environ, PYTHONPATH=wt, OMP_NUM_THREADS="1", OPENBLAS_NUM_THREADS="1", MKL_NUM_THREADS="1")
     d0 = subprocess.run(["/venv/bin/python", f"{src}/demo.py"], cwd=wt, env=env, capture_output=True, text=True, timeout=600)
     out["demo_clean_rc"] = d0.returncode
     ap = sh(f"git -C {wt} apply {src}/patch.diff")
